@@ -1689,10 +1689,13 @@ class CodeGenerator(NodeVisitor):
         self.blockvisit(node.body, block_frame)
         self.newline(node)
         self.visit(node.target, frame)
-        self.write(" = (Markup if context.eval_ctx.autoescape else identity)(")
         if node.filter is not None:
+            # The filter gets the captured block as Markup, but may return
+            # a plain string that still needs escaping.
+            self.write(" = (escape if context.eval_ctx.autoescape else identity)(")
             self.visit_Filter(node.filter, block_frame)
         else:
+            self.write(" = (Markup if context.eval_ctx.autoescape else identity)(")
             self.write(f"concat({block_frame.buffer})")
         self.write(")")
         self.pop_assign_tracking(frame)
